@@ -620,7 +620,8 @@ fn parent_main<H: Harness>(h: H, a: Args, plan: crate::Plan) -> i32 {
         "violations": unknown.len(),
     });
     if !a.no_evidence && a.only_job.is_none() {
-        let evdir = Path::new(VERIF).join("evidence");
+        // MC_EVIDENCE_DIR: keep e.g. thorough-tier evidence next to the quick-tier files
+        let evdir = std::env::var("MC_EVIDENCE_DIR").map(PathBuf::from).unwrap_or_else(|_| Path::new(VERIF).join("evidence"));
         std::fs::create_dir_all(&evdir).ok();
         let p = evdir.join(format!("{}.json", id));
         if let Err(e) = std::fs::write(&p, serde_json::to_string_pretty(&evidence).unwrap()) {
